@@ -282,6 +282,16 @@ Theorem c08_end_to_end_maps : forall ents, u64_ents ents ->
 Proof. exact maps_end_to_end. Qed.
 Print Assumptions c08_end_to_end_maps.
 
+(* unloaded modules: modules_at_address returns exactly the indices of the entries whose [base, base+size) contains
+   the address (entries with size 0 or reaching past the address space have no range and are never returned) *)
+Theorem c08_end_to_end_unloaded : forall p ents, u64_ents ents ->
+  exists t, g_unloaded_table p ents = Ret t /\
+    StronglySorted (fun a b => range_lt (fst b) (fst a) = false) t /\
+    forall x i, In i (unloaded_at t x) <->
+      0 <= i /\ exists b s, nth_error ents (Z.to_nat i) = Some (b, s) /\ s <> 0 /\ b + s < two64 /\ b <= x < b + s.
+Proof. exact unloaded_end_to_end. Qed.
+Print Assumptions c08_end_to_end_unloaded.
+
 (* ---- non-vacuity: the hypotheses are met by concrete, non-trivial inputs ---- *)
 Example c08_nonvacuous_wf :
   wf_entries [(mk_range 18446744073709551610 6, 1); (mk_range 0 0, 2); (mk_range 5 10, 3);
